@@ -7,7 +7,7 @@ from vf.claims import CLAIMS, NOT_APPLICABLE
 BASE = "cd /repo && cargo test --workspace --no-fail-fast --offline"
 m = {
     "version": 1,
-    "setup_cmd": "cargo kani --version && python3-vt -c 'import z3' && cargo +nightly --version && mkdir -p /verif/evidence",
+    "setup_cmd": "cargo kani --version && python3-vt -c 'import z3' && cargo +nightly --version && rustfmt --version && mkdir -p /verif/evidence",
     "hooks": {
         "guard": "none committed: harness modules are appended to a scratch copy of /repo under cfg(verif) (E2) / cfg(kani) (E1) at run time",
         "enable": "./run_check.sh copies /repo's working tree to /var/tmp/a2lverif.*, appends /verif/harness/<module>.rs as `#[cfg(verif)] mod verif_h` (and /verif/kani/<module>.rs as `#[cfg(kani)] mod verif_kani`) to the matching module file of the copy, adds a2lfile/src/verif_rt.rs, and builds the copy with --cfg verif",
